@@ -8,6 +8,8 @@ import (
 	"math/big"
 	"math/rand"
 	"strings"
+	"unicode"
+	"unicode/utf8"
 
 	"github.com/wollac/iota-crypto-demo/pkg/bip32path"
 
@@ -19,14 +21,14 @@ func init() {
 		ID:       "C10",
 		Builds:   []string{"default", "386"}, // the 386 build runs a quarter of the random classes on a 32-bit target
 		Parallel: 4,                          // cases are judged on 4 goroutines per shard: the library functions are stateless, shared state inside them shows up as wrong verdicts
-		Rule: "strings from a grammar-aware generator (number pool with leading zeros, 2^31 boundaries, huge values, prefixed forms; markers; separators) plus single-character mutations and random strings over {0-9 m M / H h ' space + - x _ . bytes>=0x80}; paths of length 0..20 over boundary and random indices. " +
+		Rule: "strings from a grammar-aware generator (number pool with leading zeros, 2^31 boundaries, huge values, prefixed forms; markers; separators) plus single-character mutations and random strings over {0-9 m M / H h ' space + - x _ . bytes>=0x80}; every non-ASCII rune of the Unicode categories Nd, No and Nl in a digit position of six templates, and generated strings in which one or all characters are replaced by a Unicode look-alike (other-script digits; fullwidth, Greek, Cyrillic m M H h; fullwidth and fraction slashes; primes and typographic apostrophes); paths of length 0..20 over boundary and random indices. " +
 			"Non-trivial: a string with a multi-digit component that has a leading zero, a component whose value lies in [2^31-2, 2^31+1], or a malformed separator/prefix; a path with at least one index.",
 		Assumptions: []string{"math/big decimal parsing", "the recogniser in harness/prop/c10 (self-tested on literals)"},
 		SelfTest:    selfTest,
 		Gen:         gen,
 		Judge:       judge,
 		Render:      render,
-		Required:    []string{"parse model=accept impl=accept", "parse model=reject impl=reject", "roundtrip ok"},
+		Required:    []string{"inputs with a non-ASCII numeric rune", "parse model=accept impl=accept", "parse model=reject impl=reject", "roundtrip ok"},
 	})
 }
 
@@ -205,6 +207,12 @@ func judge(class string, key []byte, o *fw.Obs) {
 			o.Nontrivial()
 		}
 		mok, mp := model(s)
+		for _, r := range s {
+			if r > 0x7f && r != utf8.RuneError && (unicode.IsDigit(r) || unicode.IsNumber(r)) {
+				o.Count("inputs with a non-ASCII numeric rune")
+				break
+			}
+		}
 		var got bip32path.Path
 		var err error
 		if !o.Try("ParsePath", func() { got, err = bip32path.ParsePath(s) }) {
@@ -359,6 +367,61 @@ func gen(g *fw.Gen) {
 		if g.Own(j) {
 			g.Emit("parse", []byte(s))
 		}
+	}
+	// every Unicode decimal digit (category Nd: Arabic-Indic, Devanagari, fullwidth, mathematical, ...) and the
+	// other numeric runes (No, Nl) in a digit position: the grammar knows ASCII 0-9 only
+	var nd []rune
+	for _, tab := range []*unicode.RangeTable{unicode.Nd, unicode.No, unicode.Nl} {
+		for _, r16 := range tab.R16 {
+			for r := rune(r16.Lo); r <= rune(r16.Hi); r += rune(r16.Stride) {
+				if r > 0x7f {
+					nd = append(nd, r)
+				}
+			}
+		}
+		for _, r32 := range tab.R32 {
+			for r := rune(r32.Lo); r <= rune(r32.Hi); r += rune(r32.Stride) {
+				nd = append(nd, r)
+			}
+		}
+	}
+	for _, r := range nd {
+		for _, f := range []string{"m/%c", "%c", "%cH", "m/1%c'", "m/%c0/1", "0/%c%c"} {
+			i++
+			if g.Own(i) {
+				str := strings.Replace(f, "%c", string(r), -1)
+				g.Emit("parse", []byte(str))
+			}
+		}
+	}
+	lookalike := map[byte][]rune{
+		'm': {0xFF4D, 0x217F, 0x043C, 0x1D426}, 'M': {0xFF2D, 0x039C, 0x041C},
+		'/': {0xFF0F, 0x2215, 0x2044, 0x29F8}, 'H': {0xFF28, 0x0397, 0x041D, 0x029C},
+		'h': {0xFF48, 0x04BB}, '\'': {0x2019, 0x2032, 0x02B9, 0xFF07, 0x02BC, 0x00B4},
+	}
+	for n := g.ShareOf(30000, 1000000); n > 0; n-- {
+		b := []byte(randString(g.Rng))
+		if len(b) == 0 {
+			continue
+		}
+		var sb strings.Builder
+		hit := g.Rng.Intn(len(b))
+		all := g.Rng.Intn(4) == 0
+		for k, c := range b {
+			if k != hit && !all {
+				sb.WriteByte(c)
+				continue
+			}
+			switch {
+			case c >= '0' && c <= '9':
+				sb.WriteRune(nd[g.Rng.Intn(len(nd))])
+			case lookalike[c] != nil:
+				sb.WriteRune(lookalike[c][g.Rng.Intn(len(lookalike[c]))])
+			default:
+				sb.WriteByte(c)
+			}
+		}
+		g.Emit("parse", []byte(sb.String()))
 	}
 	for n := g.ShareOf(600000, 20000000); n > 0; n-- {
 		if g.Rng.Intn(10) == 0 {
